@@ -510,6 +510,33 @@ pub fn c02(tier: &str, seed: u64) {
         check_not_secret("foreign shares mixed in", &sel, vec![("distinct_of_target", k.to_string())]);
       }
     }
+    // measurements RELATED to the target by padding (trailing / leading zero bytes, block padding)
+    // are other measurements: t-1 reports of the target plus one report of a relative do not
+    // combine, whichever comes first
+    {
+      let mut rel: Vec<Vec<u8>> = Vec::new();
+      for pad in [1usize, 2, 24] {
+        let mut v = m.clone();
+        v.extend(vec![0u8; pad]);
+        rel.push(v);
+      }
+      let mut v = m.clone();
+      v.resize(((m.len() + 24) / 24) * 24, 0);
+      rel.push(v);
+      let mut v = vec![0u8];
+      v.extend(&m);
+      rel.push(v);
+      if m.last() == Some(&0) {
+        rel.push(m[..m.len() - 1].to_vec());
+      }
+      let r = g.pick(&rel).clone();
+      let other = make_client(&r, &e, t, None, None);
+      let mut sel: Vec<sta_rs::Share> = shares[..t as usize - 1].to_vec();
+      let pos = if g.chance(1, 2) { 0 } else { sel.len() };
+      sel.insert(pos, other.msg.share.clone());
+      check_not_secret("t-1 reports plus one report of a measurement related by padding", &sel, vec![("related_measurement", hex(&r))]);
+      stat("oracle.C02.related_measurement_mixtures");
+    }
     // (E) byte scan of each encoded report for the client's secrets
     let rnd = clients[0].rnd;
     let mut r1 = [0u8; 32];
@@ -698,6 +725,36 @@ pub fn c03(tier: &str, seed: u64) {
         case(true);
       }
     }
+    // MIXED thresholds: the same measurement and epoch reported under different thresholds are
+    // different sharings with different keys - no keystream in common, and reports that reach a
+    // LOW threshold must not open a report made for a higher one
+    if case_i % 3 == 0 {
+      let (t1, t2) = *g.pick(&[(2u32, 3u32), (2, 50), (3, 259), (2, 65536 + 2)]);
+      let al = *g.pick(&[1usize, 8, 33, 100]);
+      let lows: Vec<Client> = (0..t1).map(|_| make_client(&m, &e, t1, Some(g.bytes(al)), None)).collect();
+      let high = make_client(&m, &e, t2, Some(g.bytes(al)), None);
+      let d = vec![("measurement", hex(&m)), ("epoch", hex(&e)), ("threshold_low", t1.to_string()), ("threshold_high", t2.to_string()), ("aux_len", al.to_string())];
+      let (ca, cb) = (lows[0].msg.ciphertext.to_bytes(), high.msg.ciphertext.to_bytes());
+      let (pa, pb) = (payload_of(&m, &lows[0].aux), payload_of(&m, &high.aux));
+      let blk = 166.min(ca.len());
+      if lows[0].aux != high.aux && xor(&ca[..blk], &cb[..blk]) == xor(&pa[..blk], &pb[..blk]) {
+        fail("keystream_shared_across_thresholds", &d);
+      }
+      if lows[0].msg.tag == high.msg.tag {
+        fail("tag_shared_across_thresholds", &d);
+      }
+      let shares: Vec<sta_rs::Share> = lows.iter().map(|c| c.msg.share.clone()).collect();
+      if let Ok(c) = share_recover(&shares) {
+        let mut kk = vec![0u8; 16];
+        derive_ske_key(&c.get_message(), &e, &mut kk);
+        let pt = high.msg.ciphertext.decrypt(&kk, "star_encrypt");
+        if pt == pb {
+          fail("report_opened_by_lower_threshold_group", &d);
+        }
+      }
+      case(true);
+      stat("oracle.C03.mixed_threshold_populations");
+    }
     // the same relation one block further on: a measurement longer than a block is a common prefix
     // of whole blocks, and the block in which the associated data start leaks their difference
     // (Lean: C03_reports_leak_beyond_first_block) - same root cause, same known finding
@@ -840,6 +897,32 @@ pub fn c04(tier: &str, seed: u64) {
   for t in [3u32, 4, 255, 256, 257, 65535, 65536, u32::MAX - 1, u32::MAX] {
     check_distinct(&m0, &e0, t, &mut seen);
   }
+  // measurements / epochs RELATED by padding, trimming or case (what a canonicalisation step would
+  // identify): trailing and leading zero bytes, spaces, NUL-terminated and block-padded forms
+  for base in [b"abc".to_vec(), vec![7u8], m0.clone(), g.blob(23), g.blob(24), vec![]] {
+    let mut fam: Vec<Vec<u8>> = vec![base.clone()];
+    for pad in [1usize, 2, 21, 24] {
+      let mut v = base.clone();
+      v.extend(vec![0u8; pad]);
+      fam.push(v);
+    }
+    let mut v = vec![0u8];
+    v.extend(&base);
+    fam.push(v);
+    let mut v = base.clone();
+    v.push(b' ');
+    fam.push(v);
+    fam.push(base.to_ascii_uppercase());
+    let mut v = base.clone();
+    v.resize(((base.len() + 24) / 24) * 24, 0);
+    fam.push(v);
+    fam.dedup();
+    for f in &fam {
+      check_distinct(f, &e0, 3, &mut seen);
+      check_distinct(&m0, f, 3, &mut seen);
+    }
+  }
+  stat("oracle.C04.related_by_padding_families");
   for l in 0..m0.len() {
     check_distinct(&m0[..l], &e0, 3, &mut seen);
     check_distinct(&m0, &m0[..l], 3, &mut seen);
